@@ -20,8 +20,15 @@ S = None  # current scheduler
 
 
 class Sched:
-    def __init__(self, choices=(), cancel_at=-1, cancel_fn=None):
+    def __init__(self, choices=(), cancel_at=-1, cancel_fn=None, nest=(), pump=()):
+        """choices: consumed in order at every decision with more than one option (dense control);
+        nest = [(point index, k)]: at that scheduling point start the k-th runnable executor's next task nested;
+        pump = [(pump index, k)]: at that pump step of a blocking primitive run the k-th runnable executor instead
+        of the default one (sparse control: a few symbolic positions reach deep into a run)"""
         global S
+        self.nest = list(nest)
+        self.pump = list(pump)
+        self.pumps = 0
         self.choices = list(choices)
         self.k = 0
         self.execs = []
@@ -67,6 +74,13 @@ class Sched:
             self.cancel_fn()
         self.suspended_env += 1
         try:
+            for (p, k) in self.nest:
+                if p == idx:
+                    r = self.runnable()
+                    for j in range(len(r)):
+                        if k == j:
+                            r[j].start_next()
+                            break
             while True:
                 r = self.runnable()
                 if not r:
@@ -83,14 +97,26 @@ class Sched:
         while not cond():
             if self.stuck:
                 raise Stuck()      # the run is already abandoned (the code under test swallowed the signal)
-            r = self.runnable()
+            # default (choice 0): downstream stages first (io, submission, request) - what a blocked thread is
+            # usually waiting for; other orders through the symbolic choices
+            r = self.runnable()[::-1]
             if not r:
                 if self.suspended_env > 0:
                     self.stuck = True
                     raise Stuck()
                 self.deadlock = 'deadlock: %s can never be satisfied' % what
                 raise Deadlock(self.deadlock)
-            r[self.choose(len(r))].start_next()
+            b = self.pumps
+            self.pumps += 1
+            pick = None
+            for (pb, k) in self.pump:
+                if pb == b:
+                    for j in range(len(r)):
+                        if k == j:
+                            pick = j
+            if pick is None:
+                pick = self.choose(len(r))
+            r[pick].start_next()
 
     def drain(self):
         while True:
